@@ -26,6 +26,7 @@ import (
 	lss3 "github.com/benbjohnson/litestream/s3"
 
 	"lsverif/ev"
+	"lsverif/vclock"
 	"lsverif/fakes3"
 	"lsverif/sched"
 )
@@ -45,7 +46,12 @@ const (
 type c20Scenario struct {
 	Ops  [][]string `json:"ops"`
 	Live []bool     `json:"ttl_live"`
+	// Near: the magnitude of the client's TTL is 500 ms instead of 1 h (a lease about to expire / just expired).
+	// Only used while the clock is frozen (vclock), so that such a lease keeps its sign for the whole execution.
+	Near []bool `json:"ttl_near,omitempty"`
 }
+
+func (s *c20Scenario) near(i int) bool { return i < len(s.Near) && s.Near[i] }
 
 func c20Name(i int) string { return string(rune('A' + i)) }
 
@@ -54,11 +60,14 @@ func (s *c20Scenario) String() string {
 	var cl, tt []string
 	for i, ops := range s.Ops {
 		cl = append(cl, c20Name(i)+":"+strings.Join(ops, ","))
+		t := "-"
 		if s.Live[i] {
-			tt = append(tt, "+")
-		} else {
-			tt = append(tt, "-")
+			t = "+"
 		}
+		if s.near(i) {
+			t += "500ms"
+		}
+		tt = append(tt, t)
 	}
 	return strings.Join(cl, ";") + "|ttl=" + strings.Join(tt, ",")
 }
@@ -87,6 +96,11 @@ func c20Lists(maxLen int) [][]string {
 // c20Scenarios: nClients × lists ≤ maxLen × TTL signs; keep only scenarios whose
 // longest list is ≥ minLongest (to not repeat a smaller group).
 func c20Scenarios(nClients, maxLen, minLongest int) []*c20Scenario {
+	return c20ScenariosTTL(nClients, maxLen, minLongest, false)
+}
+
+// c20ScenariosTTL with near: every client's TTL is +500 ms or -500 ms instead of +1 h / -1 h.
+func c20ScenariosTTL(nClients, maxLen, minLongest int, near bool) []*c20Scenario {
 	lists := c20Lists(maxLen)
 	type cl struct {
 		ops  []string
@@ -104,6 +118,9 @@ func c20Scenarios(nClients, maxLen, minLongest int) []*c20Scenario {
 		for _, k := range idx {
 			sc.Ops = append(sc.Ops, per[k].ops)
 			sc.Live = append(sc.Live, per[k].live)
+			if near {
+				sc.Near = append(sc.Near, true)
+			}
 			if len(per[k].ops) > longest {
 				longest = len(per[k].ops)
 			}
@@ -208,10 +225,12 @@ func c20NewExec(sc *c20Scenario, tracing bool) *c20Exec {
 		l := lss3.NewLeaser()
 		l.SetLogger(c20DiscardLog)
 		l.Bucket, l.Path, l.Owner = c20Bucket, c20Path, c20Name(i)
-		if c.live {
-			l.TTL = time.Hour
-		} else {
-			l.TTL = -time.Hour
+		l.TTL = time.Hour
+		if sc.near(i) {
+			l.TTL = 500 * time.Millisecond
+		}
+		if !c.live {
+			l.TTL = -l.TTL
 		}
 		l.SetClient(&fakes3.Client{
 			S:      e.store,
@@ -333,7 +352,9 @@ func (e *c20Exec) parse(o *fakes3.Object) c20Lease {
 	var l litestream.Lease
 	out := c20Lease{Owner: "?", Gen: -1}
 	if err := json.Unmarshal(o.Body, &l); err == nil {
-		out = c20Lease{Owner: l.Owner, Gen: l.Generation, Expired: l.IsExpired()}
+		// expiry is judged by the harness itself (not by Lease.IsExpired, which is code under test); the clock does
+		// not move during an execution (frozen) or the margin is an hour (real clock), so the verdict can be cached
+		out = c20Lease{Owner: l.Owner, Gen: l.Generation, Expired: vclock.Now().After(l.ExpiresAt)}
 	}
 	e.parsed[o.ETag] = out
 	return out
@@ -905,6 +926,17 @@ type c20Detail struct {
 	Others    []string     `json:"other_scenarios,omitempty"`
 }
 
+// c20SeamS3: does s3.Leaser stamp leases from the seam clock? (one acquire on a private store)
+func c20SeamS3() bool {
+	st := fakes3.NewStore(c20Bucket)
+	l := lss3.NewLeaser()
+	l.SetLogger(c20DiscardLog)
+	l.Bucket, l.Path, l.Owner, l.TTL = c20Bucket, c20Path, "seam", time.Hour
+	l.SetClient(&fakes3.Client{S: st})
+	lease, err := l.AcquireLease(context.Background())
+	return err == nil && lease != nil && lease.ExpiresAt.Equal(vclock.Base.Add(time.Hour))
+}
+
 func c20Signature(f *c20Found) string {
 	return f.Kind + "|" + f.Sc.String() + "|sched=" + c20SchedString(f.Sched) + "|" + f.Class
 }
@@ -924,6 +956,21 @@ func c20(args []string) int {
 	groups := []c20Group{
 		{"2 clients x lists<=3", c20Scenarios(2, 3, 1)},
 		{"3 clients x lists<=2", c20Scenarios(3, 2, 1)},
+	}
+	// Clock seam (tools/build.sh): with the clock frozen, a lease written with TTL +500 ms has 500 ms left during the
+	// whole execution and one written with -500 ms expired 500 ms ago. Self-test: the lease code must follow the
+	// frozen clock; if it does not (the seam did not apply to this tree), the near-expiry groups are left out and
+	// said so, and the +-1 h groups run on the real clock as before.
+	vclock.Freeze()
+	clockSeam := !(&litestream.Lease{ExpiresAt: vclock.Base.Add(time.Minute)}).IsExpired() &&
+		(&litestream.Lease{ExpiresAt: vclock.Base.Add(-time.Minute)}).IsExpired() && c20SeamS3()
+	if !clockSeam {
+		vclock.Thaw()
+		fmt.Println("C20: clock seam not active for this tree (lease code reads the clock in a way tools/build.sh does not redirect): near-expiry groups skipped")
+	} else {
+		groups = append(groups,
+			c20Group{"2 clients x lists<=3, TTL +-500ms", c20ScenariosTTL(2, 3, 1, true)},
+			c20Group{"3 clients x lists<=2, TTL +-500ms", c20ScenariosTTL(3, 2, 1, true)})
 	}
 	if ev.Tier() == "thorough" {
 		groups = append(groups, c20Group{"2 clients x lists<=4 (some list =4)", c20Scenarios(2, 4, 4)})
@@ -1128,10 +1175,11 @@ func c20(args []string) int {
 			"traces_validated_against_impl": totExecs,
 			"evaluations":                   totExecs,
 			"distinct_nontrivial":           nontrivial,
-			"rule": "every scenario = per client an operation list over {acq,ren,rel} starting with acq (ren/rel use the last lease the client obtained, also a stale one; dropped if it never obtained one) and a TTL of +1h (live) or -1h (born expired); " +
+			"rule": "every scenario = per client an operation list over {acq,ren,rel} starting with acq (ren/rel use the last lease the client obtained, also a stale one; dropped if it never obtained one) and a TTL of +1h (live) or -1h (born expired), and, on a frozen clock (build-time clock seam for leaser.go and s3/leaser.go), +500ms (live, about to expire) or -500ms (just expired); " +
 				"for each scenario ALL interleavings of the clients' individual storage requests are explored (DFS, replay from the initial state, visited set on canonical state incl. monitor state and real-time precedence); " +
 				"evaluations = complete executions of the real s3.Leaser; distinct_nontrivial = number of distinct (scenario, outcome class) pairs in which some client observed another (a result exists/notheld/already, or an acquire at generation >= 2); outcome class = per-operation results + final store record",
 			"exhaustive":               exhaustive,
+			"clock_seam_active":        clockSeam,
 			"completed":                completed,
 			"scenarios":                totScen,
 			"scenarios_completed":      totDone,
@@ -1150,7 +1198,7 @@ func c20(args []string) int {
 		},
 		Assumptions: []string{
 			"fakes3 models S3 conditional requests: If-None-Match:* fails with 412 iff the key exists; If-Match fails with 412 iff the key is missing or its ETag differs; each request is atomic; ETag is a fresh value on every successful put (no two object versions share an ETag)",
-			"time: a lease written with TTL=+1h stays unexpired and one written with TTL=-1h is expired for the whole execution (executions take microseconds); expiry of a lease in the middle of an execution is represented only by these two cases",
+			"time: a lease written with TTL=+1h stays unexpired and one written with TTL=-1h is expired for the whole execution (executions take microseconds); the +-500ms classes run on a frozen clock (lsverif/vclock substituted for time.Now/Until/Since in the lease code by go build -overlay; a self-test at start confirms that Lease.IsExpired and the ExpiresAt stamp of s3.Leaser follow it, otherwise those groups are skipped and the evidence says so); a lease does not change from unexpired to expired in the middle of an execution; the oracle's own notion of expiry is now > ExpiresAt, computed by the harness, not Lease.IsExpired",
 			"the sequential specification is safety-only: a failing acquire is admitted whenever a record is present at its linearization point",
 			"an operation's real-time interval is [first storage request, last storage request]",
 		},
@@ -1186,6 +1234,11 @@ func c20Replay(path string) int {
 	var schedule []byte
 	for _, c := range v.Detail.Schedule {
 		schedule = append(schedule, byte(c))
+	}
+	for i := range sc.Ops {
+		if sc.near(i) {
+			vclock.Freeze() // near-expiry TTLs are only meaningful on the frozen clock (see c20)
+		}
 	}
 	fmt.Printf("replay C20: scenario %s schedule %s\n", sc, c20SchedString(schedule))
 	if v.Signature != "" {
